@@ -271,7 +271,12 @@ func c19Realise(batch bool, settings []Setting) c19Obs {
 		return nil
 	}
 	var node flyt.Node
-	var base *flyt.BaseNode
+	var base interface {
+		GetMaxRetries() int
+		GetWait() time.Duration
+		GetBatchConcurrency() int
+		GetBatchErrorHandling() string
+	}
 	if !batch {
 		var opts []any
 		for _, s := range settings {
@@ -311,8 +316,8 @@ func c19Realise(batch bool, settings []Setting) c19Obs {
 				continue
 			}
 			if s.Form == "late" {
-				if o := baseOpt(s); o != nil {
-					o(b.BaseNode)
+				if o, bn := baseOpt(s), embeddedBase(b); o != nil && bn != nil {
+					o(bn)
 					continue
 				}
 			}
@@ -347,7 +352,7 @@ func c19Realise(batch bool, settings []Setting) c19Obs {
 				b = b.WithExecFallbackFunc(p.fb(s.Val))
 			}
 		}
-		node, base = b, b.BaseNode
+		node, base = b, b
 	} else {
 		var opts []any
 		for _, s := range settings {
@@ -364,8 +369,8 @@ func c19Realise(batch bool, settings []Setting) c19Obs {
 				continue
 			}
 			if s.Form == "late" {
-				if o := baseOpt(s); o != nil {
-					o(b.BaseNode)
+				if o, bn := baseOpt(s), embeddedBase(b); o != nil && bn != nil {
+					o(bn)
 					continue
 				}
 			}
@@ -390,7 +395,7 @@ func c19Realise(batch bool, settings []Setting) c19Obs {
 				b = b.WithPostFunc(p.postBatch(s.Val))
 			}
 		}
-		node, base = b, b.BaseNode
+		node, base = b, b
 	}
 	p.obs.Retries, p.obs.Wait = base.GetMaxRetries(), base.GetWait()
 	p.obs.Conc, p.obs.Mode = base.GetBatchConcurrency(), base.GetBatchErrorHandling()
